@@ -151,6 +151,35 @@ export function genTy(rng, d, sc) {
     default: return genTy(rng, 0, sc);
   }
 }
+// an intersection that the compiler flattens into ONE object (an interface with two parents, a body that declares a parent's
+// property again, a mapped built-in over `A & B` of named types) where two members declare the same property with the same
+// type and the later one has further properties whose names sort after the shared key
+export function sharedKeyProg(rng) {
+  const leaf = () => rng.pick([A("string"), A("number"), A("boolean"), [A("lit"), [A("s"), "a"]], A("null")]);
+  const shared = rng.pick(["k", "b", "kind"]), tk = leaf();
+  const after = ["m", "t", "z", "zz"].filter(() => rng.chance(2, 3));
+  if (!after.length) after.push("z");
+  const before = rng.chance(1, 2) ? [["a", A("false"), leaf()]] : [];
+  const pa = [[shared, A("false"), tk], ...(rng.chance(1, 2) ? [["a0", A(rng.chance(1, 3) ? "true" : "false"), leaf()]] : [])];
+  const pb = [...before, [shared, A("false"), tk], ...after.map((k) => [k, A(rng.chance(1, 3) ? "true" : "false"), leaf()])];
+  const mk = (name, ms) => (rng.chance(1, 2) ? [A("iface"), name, [], [], ms] : [A("alias"), name, [], [A("obj"), ms, A("none")]]);
+  const decls = [mk("Pa", pa), mk("Pb", pb)];
+  const ra = [A("ref"), "Pa"], rb = [A("ref"), "Pb"];
+  const both = rng.chance(1, 2) ? [A("inter"), ra, rb] : [A("inter"), rb, ra];
+  const keys = [shared, ...after, "a0"].filter(() => rng.chance(2, 3));
+  const keyU = (ks) => (ks.length === 1 ? [A("lit"), [A("s"), ks[0]]] : [A("union"), ...ks.map((k) => [A("lit"), [A("s"), k]])]);
+  let root;
+  switch (rng.below(7)) {
+    case 0: decls.push([A("iface"), "Cc", [], rng.chance(1, 2) ? [ra, rb] : [rb, ra], [["own", A("false"), A("null")]]]); root = [A("ref"), "Cc"]; break;
+    case 1: decls.push([A("iface"), "Cc", [], [ra], [[shared, A("false"), tk], ...after.map((k) => [k, A("false"), leaf()])]]); root = [A("ref"), "Cc"]; break;
+    case 2: root = [A("bi"), "Partial", both]; break;
+    case 3: root = [A("bi"), "Required", both]; break;
+    case 4: root = [A("bi"), "Pick", both, keyU(keys.length ? keys : [shared])]; break;
+    case 5: root = [A("bi"), "Omit", both, keyU(["a0"])]; break;
+    default: root = both;
+  }
+  return [A("prog"), decls, [["E0", rng.chance(1, 4) ? [A("obj"), [["p", A("false"), root]], A("none")] : root]]];
+}
 export function genProg(rng) {
   const nd = rng.below(4);
   const names = [], objNames = [], decls = [];
@@ -666,7 +695,7 @@ export function gen(rng, params, mode) {
   }
   if (mode === "prog-strict") {
     // (strict id p files values): acceptance with disallowExtraProperties on; values carry undeclared keys at every depth
-    const p = genProg(rng);
+    const p = rng.chance(1, 6) ? sharedKeyProg(rng) : genProg(rng);
     const base = genValues(rng, p, Number(params[0] || 8));
     const extra = (v, d) => {
       if (Array.isArray(v)) return v.map((x) => (rng.chance(1, 3) ? extra(x, d + 1) : x));
